@@ -112,6 +112,9 @@ class Eval:
             return z3.Not(opt_is_none(v))
         if v.t == NONE:
             return z3.BoolVal(False)
+        if isinstance(v.t, TFun) or (isinstance(v.t, TU) and v.t.uname == "opaque"):
+            # a callable-or-None / uninterpreted value: its truth value is not tracked (arbitrary)
+            return self.ex.new_sym(BOOL, "truth", self.st).z
         raise Unsupported(f"truthiness of {v.t}")
 
     def lookup(self, name: str) -> V:
@@ -156,6 +159,8 @@ class Eval:
         raise Unsupported(f"constant {v!r}")
 
     def e_Name(self, n):
+        if n.id in self.st.vars and isinstance(self.st.vars[n.id].t, TFun):
+            return self.st.vars[n.id]
         if n.id == "result" and self.result is not None and self.spec:
             return self.result
         return self.lookup(n.id)
@@ -449,6 +454,17 @@ class Eval:
 
     def e_ListComp(self, n):
         return self.ex.listcomp(self, n)
+
+    def e_Set(self, n):
+        vs = [self.expr(e) for e in n.elts]
+        t = TSet(vs[0].t)
+        mem = z3.K(sort_of(vs[0].t), z3.BoolVal(False))
+        card = z3.IntVal(0)
+        for v in vs:
+            card = z3.If(z3.Select(mem, v.z), card, card + 1)
+            mem = z3.Store(mem, v.z, z3.BoolVal(True))
+        from .types import mk_set
+        return mk_set(t, mem, card)
 
     def e_Dict(self, n):
         if not n.keys or any(k is None for k in n.keys):
